@@ -13,7 +13,7 @@ use std::sync::Arc;
 use std::task::{Context, Poll, Wake, Waker};
 
 #[derive(Clone, Copy, Debug, PartialEq, Eq)]
-pub enum Arch { Amd64, X86, Arm64, Arm64Old, Arm, Mips }
+pub enum Arch { Amd64, X86, Arm64, Arm64Old, Arm, Mips, Mips64 }
 
 pub struct WalkInput {
     pub arch: Arch,
@@ -58,7 +58,7 @@ pub fn block_on<F: Future>(mut f: Pin<Box<F>>) -> F::Output {
 }
 
 pub fn cpu_of(a: Arch) -> Cpu {
-    match a { Arch::Amd64 => Cpu::X86_64, Arch::X86 => Cpu::X86, Arch::Arm64 | Arch::Arm64Old => Cpu::Arm64, Arch::Arm => Cpu::Arm, Arch::Mips => Cpu::Mips }
+    match a { Arch::Amd64 => Cpu::X86_64, Arch::X86 => Cpu::X86, Arch::Arm64 | Arch::Arm64Old => Cpu::Arm64, Arch::Arm => Cpu::Arm, Arch::Mips => Cpu::Mips, Arch::Mips64 => Cpu::Mips64 }
 }
 
 fn zeroed<'a, T: scroll::ctx::TryFromCtx<'a, scroll::Endian, [u8], Error = scroll::Error>>() -> T {
@@ -75,6 +75,11 @@ pub fn make_context(arch: Arch, regs: &[(String, u64)], valid: &Option<Vec<Strin
         Arch::Arm64Old => MinidumpRawContext::OldArm64(md::CONTEXT_ARM64_OLD::default()),
         Arch::Arm => MinidumpRawContext::Arm(md::CONTEXT_ARM::default()),
         Arch::Mips => MinidumpRawContext::Mips(zeroed::<md::CONTEXT_MIPS>()),
+        Arch::Mips64 => {
+            let mut c = zeroed::<md::CONTEXT_MIPS>();
+            c.context_flags = 0x8_0000; // CONTEXT_MIPS64: selects the 64-bit walker
+            MinidumpRawContext::Mips(c)
+        }
     };
     for (n, v) in regs {
         let ok = match &mut raw {
@@ -165,6 +170,7 @@ pub fn arch_spec(name: &str) -> ArchSpec {
         "arm64old" => ArchSpec { arch: Arch::Arm64Old, word: 8, adj: 4, leaf: 1, ip: "pc", sp: "sp", fp: "fp", track: vec!["fp", "lr"] },
         "arm" => ArchSpec { arch: Arch::Arm, word: 4, adj: 2, leaf: 1, ip: "pc", sp: "sp", fp: "fp", track: vec!["fp", "lr"] },
         "mips" => ArchSpec { arch: Arch::Mips, word: 4, adj: 8, leaf: 1, ip: "pc", sp: "sp", fp: "fp", track: vec!["fp", "ra"] },
+        "mips64" => ArchSpec { arch: Arch::Mips64, word: 8, adj: 8, leaf: 1, ip: "pc", sp: "sp", fp: "fp", track: vec!["fp", "ra"] },
         _ => panic!("arch {}", name),
     }
 }
